@@ -29,26 +29,31 @@ Record e2e_cfg := {
 (* ------------------------------------------------------------------ the broker *)
 
 Record broker := {
-  b_subs : list (bytes * N);   (* subscription table: filter, granted QoS *)
+  b_subs : list (bytes * N);   (* subscription table: filter, granted QoS (in order of subscription) *)
   b_next_mid : N;              (* packet identifiers of the PUBLISHes it originates *)
+  b_inflight2 : list N;        (* QoS 2 PUBLISHes of the gateway received but not yet released *)
   b_closed : bool }.
-Definition broker_init : broker := {| b_subs := []; b_next_mid := 1000; b_closed := false |}.
+Definition broker_init : broker := {| b_subs := []; b_next_mid := 1000; b_inflight2 := []; b_closed := false |}.
 
-#[export] Instance eta_broker : Settable _ := settable! Build_broker <b_subs; b_next_mid; b_closed>.
+#[export] Instance eta_broker : Settable _ := settable! Build_broker <b_subs; b_next_mid; b_inflight2; b_closed>.
 
+Definition sub_set (fq : bytes * N) (l : list (bytes * N)) : list (bytes * N) :=
+  if existsb (fun e => beq (fst e) (fst fq)) l
+  then map (fun e => if beq (fst e) (fst fq) then fq else e) l      (* re-subscribing replaces the QoS *)
+  else l ++ [fq].
 Definition sub_del (f : bytes) (l : list (bytes * N)) := List.filter (fun e => negb (beq (fst e) f)) l.
 Definition sub_matching (l : list (bytes * N)) (topic : bytes) : list (bytes * N) :=
   List.filter (fun e => match_route (split (fst e)) (split topic)) l.
 
-(* route one PUBLISH to the (single) client of this gateway: one copy per matching subscription *)
-Fixpoint route (b : broker) (subs : list (bytes * N)) (q : N) (topic payload : bytes) : broker * list mq_pkt :=
-  match subs with
+(* route one PUBLISH to the (single) client of this gateway: one copy, at the highest QoS of the
+   matching subscriptions capped by the QoS of the message [MQTT-3.3.5-1] *)
+Definition route (b : broker) (q : N) (topic payload : bytes) : broker * list mq_pkt :=
+  match sub_matching (b_subs b) topic with
   | [] => (b, [])
-  | (_, sq) :: rest =>
-    let q' := N.min q sq in
-    let '(mid, b1) := if q' =? 0 then (0, b) else (b_next_mid b, b <| b_next_mid := b_next_mid b + 1 |>) in
-    let '(b2, more) := route b1 rest q topic payload in
-    (b2, MqPublish false q' false topic mid payload :: more)
+  | ms =>
+    let q' := N.min q (fold_left N.max (map snd ms) 0) in
+    if q' =? 0 then (b, [MqPublish false 0 false topic 0 payload])
+    else (b <| b_next_mid := b_next_mid b + 1 |>, [MqPublish false q' false topic (b_next_mid b) payload])
   end.
 
 (* what the broker answers to a packet of the gateway *)
@@ -57,13 +62,17 @@ Definition broker_recv (b : broker) (m : mq_pkt) : broker * list mq_pkt :=
   match m with
   | MqConnect _ => (b, [MqConnack false 0])
   | MqSubscribe mid _ fs =>
-    (b <| b_subs := fold_left (fun l fq => sub_del (fst fq) l ++ [fq]) fs (b_subs b) |>, [MqSuback mid (map snd fs)])
+    (b <| b_subs := fold_left (fun l fq => if snd fq <=? 2 then sub_set fq l else l) fs (b_subs b) |>,
+     [MqSuback mid (map (fun fq => if snd fq <=? 2 then snd fq else 128) fs)])
   | MqUnsubscribe mid fs => (b <| b_subs := fold_left (fun l f => sub_del f l) fs (b_subs b) |>, [MqUnsuback mid])
   | MqPublish _ q _ topic mid payload =>
-    let ack := if q =? 1 then [MqPuback mid] else if q =? 2 then [MqPubrec mid] else [] in
-    let '(b', pubs) := route b (sub_matching (b_subs b) topic) q topic payload in
-    (b', ack ++ pubs)
-  | MqPubrel mid => (b, [MqPubcomp mid])
+    if q =? 2 then
+      if existsb (N.eqb mid) (b_inflight2 b) then (b, [MqPubrec mid])       (* repeated: PUBREC again, not routed again *)
+      else let '(b', pubs) := route (b <| b_inflight2 := b_inflight2 b ++ [mid] |>) q topic payload in (b', MqPubrec mid :: pubs)
+    else
+      let '(b', pubs) := route b q topic payload in
+      (b', (if q =? 1 then [MqPuback mid] else []) ++ pubs)
+  | MqPubrel mid => (b <| b_inflight2 := List.filter (fun i => negb (i =? mid)) (b_inflight2 b) |>, [MqPubcomp mid])
   | MqPubrec mid => (b, [MqPubrel mid])
   | MqPingreq => (b, [MqPingresp])
   | MqDisconnect => (b <| b_closed := true |>, [])
